@@ -72,7 +72,11 @@ def lua_loader(ctx: "Wtp", modname: str) -> Optional[str]:
     # print("LUA_LOADER IN PYTHON:", modname)
     assert isinstance(modname, str)
     modname = modname.strip()
-    data = ctx.get_page_body(modname, ctx.NAMESPACE_DATA["Module"]["id"])
+    data = None
+    if not modname.startswith("_sandbox_phase"):
+        # the bootstrap files run with the privileged phase-1 functions in
+        # their environment: never take them from the page store
+        data = ctx.get_page_body(modname, ctx.NAMESPACE_DATA["Module"]["id"])
     if data is None:
         # Try to load it from a file
         path = modname
